@@ -19,7 +19,7 @@ RULE = ("shared property p declared by two allOf members: full product of ordere
         "thorough: inline+inline, ref+ref) x requiredness pattern (4) x default pattern (none / first member / second member); each "
         "case generates BOTH member orders; plus inheritance chains and diamonds under all declaration orders and members with "
         "disjoint property sets, a colliding sibling (snake-case equal to the shared name), enums whose member names are a subset while the values are not, self-referential root parents inherited through chains, single-reference allOf that adds properties / required / additionalProperties, names that are suffixes / prefixes of one another; oracle: order-swap differential on the abstract attribute type, RM-narrow partial order, union of "
-        "properties and of requiredness, round trip of instances valid for all members; non-trivial = both orders generated or diagnosed")
+        "properties and of requiredness, round trip of instances valid for all members; non-trivial = both orders generated or diagnosed; referenced members without properties, a sibling composition of the same parent that fails (type conflict, non-object member, dangling reference), a default carried by an untyped member")
 FLOOR = 0.5
 ASSUMPTIONS = ["RM-narrow: integer < number, date/date-time < string, enum < its base type, sub-enum < enum, everything < any, array(k) ordered like k"]
 
